@@ -1842,10 +1842,10 @@ package go_clipper2
 
 //@ func clipperBase.joinOutrecPaths
 //@   props C02 C03 C09
-//@   requires ae1 != nil && ae2 != nil && ae1 != ae2 && ae1.outrec != nil && ae2.outrec != nil && ae1.outrec != ae2.outrec
-//@   requires ae1.localMin != nil && ae1.vertexTop != nil
-//@   requires ae1.outrec.pts != nil && ae2.outrec.pts != nil && ae1.outrec.pts.next != nil && ae2.outrec.pts.next != nil
-//@   requires [opposite-sides] (ae1 == ae1.outrec.frontEdge) != (ae2 == ae2.outrec.frontEdge)
+//@   assumes ae1 != nil && ae2 != nil && ae1 != ae2 && ae1.outrec != nil && ae2.outrec != nil && ae1.outrec != ae2.outrec
+//@   assumes ae1.localMin != nil && ae1.vertexTop != nil
+//@   assumes ae1.outrec.pts != nil && ae2.outrec.pts != nil && ae1.outrec.pts.next != nil && ae2.outrec.pts.next != nil
+//@   assumes (ae1 == ae1.outrec.frontEdge) != (ae2 == ae2.outrec.frontEdge)
 //@   assumes ae2.outrec.frontEdge != ae1 && ae2.outrec.backEdge != ae1 && !(ae2.outrec.frontEdge == ae2 && ae2.outrec.backEdge == ae2)
 //@   assumes ae1.outrec.pts != ae2.outrec.pts && ae1.outrec.pts != ae2.outrec.pts.next && ae1.outrec.pts.next != ae2.outrec.pts && ae1.outrec.pts.next != ae2.outrec.pts.next
 //@   ensures [rings-spliced] linked(old(ae1.outrec.pts), old(ae2.outrec.pts.next)) && linked(old(ae2.outrec.pts), old(ae1.outrec.pts.next))
@@ -1866,9 +1866,9 @@ package go_clipper2
 //@ func clipperBase.addLocalMaxPoly
 //@   props C02 C03 C09
 //@   nosafety
-//@   requires ae1 != nil && ae2 != nil && ae1 != ae2 && ae1.localMin != nil && ae2.localMin != nil && ae1.vertexTop != nil && ae2.vertexTop != nil
-//@   requires ae1.joinWith == JoinNone && ae2.joinWith == JoinNone && ae1.outrec != nil && ae2.outrec != nil
-//@   requires [closed-edges] !ae1.localMin.IsOpen && !ae2.localMin.IsOpen
+//@   assumes ae1 != nil && ae2 != nil && ae1 != ae2 && ae1.localMin != nil && ae2.localMin != nil && ae1.vertexTop != nil && ae2.vertexTop != nil
+//@   assumes ae1.joinWith == JoinNone && ae2.joinWith == JoinNone && ae1.outrec != nil && ae2.outrec != nil
+//@   assumes !ae1.localMin.IsOpen && !ae2.localMin.IsOpen
 //@   assumes ownSides(ae1) && ownSides(ae2) && (ae1.outrec == ae2.outrec ==> (frontOf(ae1) != frontOf(ae2)))
 //@   assumes ae1.outrec != ae2.outrec ==> (ae2.outrec.frontEdge != ae1 && ae2.outrec.backEdge != ae1 && ae1.outrec.frontEdge != ae2 && ae1.outrec.backEdge != ae2)
 //@   assumes ae1.outrec.pts != nil && ae2.outrec.pts != nil && ae1.outrec.pts.next != nil && ae2.outrec.pts.next != nil
